@@ -303,6 +303,9 @@ func (n *NodeGroup) DeleteNodes(nodes ...*v1.Node) error {
 		if err != nil {
 			return fmt.Errorf("failed to terminate instance. err: %v", err)
 		}
+		// keep the cached group in step with the accepted decrement, so that a second
+		// batch or a scale-up later in the same scan starts from the real desired size
+		n.asg.DesiredCapacity = awsapi.Int64(n.TargetSize() - 1)
 		log.Debug(*result.Activity.Description)
 	}
 
